@@ -6,6 +6,7 @@ import AuthModel.Oidc.Run
 import AuthModel.Oidc.Sched
 import AuthModel.Gen
 import AuthModel.Secret
+import AuthModel.Config
 open AuthModel AuthModel.Wire
 
 def parseMatch (t : Tok) : Option StringMatch :=
@@ -65,6 +66,9 @@ structure DState where
   s256Tbl : List (Str × Str) := []
   threads : List (Nat × Thread) := []
   secret : Secret.State := { ns := [], index := [], filters := [] }
+  confDoc : Config.Doc := { chains := [], listenAddressIsIP := false, listenPort := 0, healthPort := 0, logLevelOk := false, default := none }
+  confUrls : List (Str × Option Str) := []
+  confRedis : List (Str × Bool) := []
 
 def DState.parses (d : DState) : Str → Bool := fun s =>
   match d.parseTbl.find? (·.1 == s) with
@@ -257,6 +261,125 @@ def handleSecret (d : DState) (toks : List Tok) : DState × String :=
     | _, _ => (d, "bad-op")
   | _ => (d, "bad-op")
 
+namespace ConfWire
+open Config
+
+def parseTok (t : Tok) : Option (Option TokenCfg) :=
+  if t = ['-'] then some none else
+  match splitC ':' t with
+  | [a, b] => do pure (some { header := (← unhex a), preamble := (← unhex b) })
+  | _ => none
+
+def parseOidc (toks : List Tok) : Option OidcDoc :=
+  match toks with
+  | [cu, au, tu, cb, jw, cid, sec, scopes, pfx, idt, act, lo, proxy, redis, abs, idle] => do
+    let jwks ← (match jw with
+      | ['u'] => some JwksCfg.unset
+      | 'i' :: r => (unhex r).map JwksCfg.inline
+      | 'f' :: r => (match splitC ':' r with
+          | [a, n] => do pure (JwksCfg.fetcher (← unhex a) (← natOf n))
+          | _ => none)
+      | _ => none)
+    let secret ← (match sec with
+      | ['u'] => some SecretCfg.unset
+      | 'l' :: r => (unhex r).map SecretCfg.literal
+      | 'r' :: r => (match splitC ':' r with
+          | [a, b] => do pure (SecretCfg.ref (← unhex a) (← unhex b))
+          | _ => none)
+      | _ => none)
+    let logout ← (if lo = ['-'] then some none else
+      match splitC ':' lo with
+      | [a, b] => do pure (some ({ path := (← unhex a), redirectUri := (← unhex b) } : LogoutCfg))
+      | _ => none)
+    let redisUri ← (if redis = ['-'] then some none else (unhex redis).map some)
+    pure { configurationUri := (← unhex cu), authorizationUri := (← unhex au), tokenUri := (← unhex tu), callbackUri := (← unhex cb),
+           jwks := jwks, clientId := (← unhex cid), secret := secret, scopes := (← parseStrList scopes), cookiePrefix := (← unhex pfx),
+           idToken := (← parseTok idt), accessToken := (← parseTok act), logout := logout, proxyUri := (← unhex proxy),
+           redisUri := redisUri, absTimeout := (← natOf abs), idleTimeout := (← natOf idle) }
+  | _ => none
+
+def showTokCfg : Option TokenCfg → String
+  | none => "-"
+  | some t => hex t.header ++ ":" ++ hex t.preamble
+
+def showOidc (d : OidcDoc) : String :=
+  String.intercalate " " [hex d.configurationUri, hex d.authorizationUri, hex d.tokenUri, hex d.callbackUri,
+    (match d.jwks with | .unset => "u" | .inline s => "i" ++ hex s | .fetcher u n => "f" ++ hex u ++ ":" ++ toString n),
+    hex d.clientId,
+    (match d.secret with | .unset => "u" | .literal s => "l" ++ hex s | .ref a b => "r" ++ hex a ++ ":" ++ hex b),
+    (if d.scopes.isEmpty then "-" else String.intercalate "," (d.scopes.map hex)), hex d.cookiePrefix,
+    showTokCfg d.idToken, showTokCfg d.accessToken,
+    (match d.logout with | none => "-" | some l => hex l.path ++ ":" ++ hex l.redirectUri), hex d.proxyUri,
+    (match d.redisUri with | none => "-" | some r => hex r), toString d.absTimeout, toString d.idleTimeout]
+
+def showFilter : FilterDoc → String
+  | .none => "none"
+  | .mock a => if a then "mock1" else "mock0"
+  | .oidc d => "oidc " ++ showOidc d
+  | .override d => "override " ++ showOidc d
+
+def showLoaded (l : Loaded) : String :=
+  "accept " ++ String.intercalate " | " (l.chains.map fun c =>
+    hex c.name ++ " [" ++ String.intercalate " ; " (c.filters.map showFilter) ++ "]")
+
+end ConfWire
+
+def handleConf (d : DState) (toks : List Tok) : DState × String :=
+  match toks with
+  | [['b','e','g','i','n'], ip, lp, hp, lg] =>
+    match boolOf ip, intOf lp, intOf hp, boolOf lg with
+    | some ip, some lp, some hp, some lg =>
+      ({ d with confDoc := { chains := [], listenAddressIsIP := ip, listenPort := lp, healthPort := hp, logLevelOk := lg, default := none },
+                confUrls := [], confRedis := [] }, "ok")
+    | _, _, _, _ => (d, "bad-op")
+  | ['d','e','f','a','u','l','t'] :: rest =>
+    match ConfWire.parseOidc rest with
+    | some o => ({ d with confDoc := { d.confDoc with default := some o } }, "ok")
+    | none => (d, "bad-op")
+  | [['c','h','a','i','n'], name, crit] =>
+    match unhex name with
+    | some name =>
+      let c : Option (Option Config.MatchDoc) := if crit = ['-'] then some none else
+        match splitC ':' crit with
+        | [h, b, v] => do pure (some { header := (← unhex h), criterionSet := (← boolOf b), value := (← unhex v) })
+        | _ => none
+      match c with
+      | some c => ({ d with confDoc := { d.confDoc with chains := d.confDoc.chains ++ [{ name := name, criterion := c, filters := [] }] } }, "ok")
+      | none => (d, "bad-op")
+    | none => (d, "bad-op")
+  | ['f','i','l','t','e','r'] :: kind :: rest =>
+    let f : Option Config.FilterDoc :=
+      if kind = "none".toList then some .none
+      else if kind = "mock1".toList then some (.mock true)
+      else if kind = "mock0".toList then some (.mock false)
+      else if kind = "oidc".toList then (ConfWire.parseOidc rest).map .oidc
+      else if kind = "override".toList then (ConfWire.parseOidc rest).map .override
+      else none
+    match f, d.confDoc.chains.reverse with
+    | some f, last :: before =>
+      ({ d with confDoc := { d.confDoc with chains := (({ last with filters := last.filters ++ [f] }) :: before).reverse } }, "ok")
+    | _, _ => (d, "bad-op")
+  | [['u','r','l'], uri, res] =>
+    match unhex uri with
+    | some uri =>
+      let r : Option (Option Str) := if res = ['-'] then some none else (unhex res).map some
+      match r with
+      | some r => ({ d with confUrls := (uri, r) :: d.confUrls }, "ok")
+      | none => (d, "bad-op")
+    | none => (d, "bad-op")
+  | [['r','e','d','i','s'], uri, ok] =>
+    match unhex uri, boolOf ok with
+    | some uri, some ok => ({ d with confRedis := (uri, ok) :: d.confRedis }, "ok")
+    | _, _ => (d, "bad-op")
+  | [['l','o','a','d']] =>
+    let u : Config.UrlOracle :=
+      { parse := fun s => match d.confUrls.find? (·.1 == s) with | some e => e.2 | none => none,
+        redisOk := fun s => match d.confRedis.find? (·.1 == s) with | some e => e.2 | none => false }
+    (d, match Config.load u d.confDoc with
+      | some l => ConfWire.showLoaded l
+      | none => "reject")
+  | _ => (d, "bad-op")
+
 def showStep (acts : List (Act × ARes)) (t : Thread) : String :=
   showTrace (acts.map (·.1)) ++ (match t.answer with | some r => " => " ++ showResp r | none => "")
 
@@ -326,6 +449,7 @@ def handle (d : DState) (toks : List Tok) : DState × String :=
       | none => "exhausted"
     | none => "bad-op")
   | ['s','e','c','r','e','t'] :: rest => handleSecret d rest
+  | ['c','o','n','f'] :: rest => handleConf d rest
   | ['r','e','q'] :: rest => handleReq d rest
   | ['s','p','a','w','n'] :: rest => handleSpawn d rest
   | [['s','t','e','p'], tid] =>
